@@ -585,9 +585,11 @@ namespace
                     Bytes pl;
                     for (size_t i = 1; i < o.size(); i++) pl.push_back((uint8_t)mod(o[i], 256));
                     maxpayload = std::max(maxpayload, pl.size());
-                    Bytes encd = real_encode(variant, enc, pl, cuts);
-                    cuts.clear();
+                    // C05 is about the receiver on arbitrary streams: its traffic comes from the reference encoder, so an
+                    // encoder regression (C04's subject) cannot raise a C05 alarm
                     Bytes want = ref_encode(a, pl);
+                    Bytes encd = faults ? want : real_encode(variant, enc, pl, cuts);
+                    cuts.clear();
                     // frame format: starts with START, ends with STOP, no raw marker in between, <= 2n+4
                     if (encd.empty() || encd.front() != a.START) violate("C04/frame-start", "%s: frame does not start with the start marker: %s", VAR_NAME[variant], hex(encd).c_str());
                     if (encd.back() != a.STOP || encd.size() < 2) violate("C04/frame-stop", "%s: frame does not end with the stop marker: %s", VAR_NAME[variant], hex(encd).c_str());
@@ -731,8 +733,12 @@ int main(int argc, char **argv)
     Harness h;
     h.property = LINK_FAULTS ? "C05" : "C04";
     h.worlds = {&w};
-    h.real = {"igris/protocols/gstuff.cpp (gstuffing, gstuffing_v, vector overloads, gstuff_autorecv with both alphabets)",
-              "igris/protocols/gstuff_v1/gstuff.c", "igris/protocols/gstuff_v1/autorecv.c", "igris/datastruct/sline.h", "igris/util/crc.h"};
+    if (LINK_FAULTS)
+        h.real = {"igris/protocols/gstuff.cpp (gstuff_autorecv with both alphabets)", "igris/protocols/gstuff_v1/autorecv.c",
+                  "igris/datastruct/sline.h", "igris/util/crc.h (igris_strmcrc8 inside the receivers)"};
+    else
+        h.real = {"igris/protocols/gstuff.cpp (gstuffing, gstuffing_v, vector overloads, gstuff_autorecv with both alphabets)",
+                  "igris/protocols/gstuff_v1/gstuff.c", "igris/protocols/gstuff_v1/autorecv.c", "igris/datastruct/sline.h", "igris/util/crc.h"};
     h.stub = {"byte channel (delivers byte by byte; injects faults in the C05 configuration)", "sender tasks (payload generator)",
               "reference encoder / unescape / CRC-8 used as oracle"};
     return harness_main(h, argc, argv);
